@@ -515,7 +515,16 @@ class SymStr:
         cs = SymStr.of(chars).cells          # the characters to strip may themselves be symbolic
         if any(isinstance(x, (Tok, Blob)) for x in cs):
             raise Escape('strip() with a formatted number among the characters to strip')
-        return lambda c: (not isinstance(c, (Tok, Blob))) and any(_truth(cell_eq(c, x)) for x in cs)
+        may_hit_number = any((not isinstance(x, str)) or (x in TOKEN_ALPHABET and x != ' ') for x in cs)
+
+        def pred(c):
+            if isinstance(c, (Tok, Blob)):
+                if isinstance(c, Tok) and may_hit_number:
+                    # the characters to strip could be the outer characters of the printed number: not modelled
+                    raise Escape('strip() of characters a formatted number may begin or end with')
+                return False
+            return any(_truth(cell_eq(c, x)) for x in cs)
+        return pred
 
     def lstrip(self, chars=None):
         f = self._strip_set(chars)
